@@ -270,11 +270,40 @@ class Colour(enum.Enum):
 
     def shade(self, k):
         return (self, k)
+
+
+def make_fact():
+    # a self-recursive closure that no caller keeps in a local: only its OWN frame's locals (the free variable `fact`) name it
+    def fact(n):
+        return 1 if n <= 1 else n * fact(n - 1)
+
+    return fact
+
+
+import functools
+
+
+@functools.singledispatch
+def show(v):
+    return "obj"
+
+
+@show.register(str)
+def _(v):
+    return v.upper()
+
+
+@show.register(int)
+def _(v):  # noqa: F811 - same file, same qualified name, different function (the module global `_` is this one)
+    return v + 1
 '''
+
+MUST_LOG_NESTED = ["make_fact.<locals>.fact"]
 
 NESTING_CALLS = [
     "M.top(1)", "M.top('a')", "M.top_propagates(1)", "M.rec(3)", "M.rec(0)", "M.rec_raises(2)", "M.consume(2)", "M.consume(0)",
     "M.use_prop(1)", "M.use_prop([1])", "M.lam_user(2)", "M.mid_catches(None)", "getattr(M.Prop(1), 'broken', None)",
     "M.mutate_and_return([1])", "M.fill_dict({'k1': 0})", "list(M.gen_mutating([]))",
     "M.AbcShape.make(1)", "M.AbcSquare().area(2)", "M.AbcSquare.build(3)", "M.Colour.parse('x')", "M.Colour.RED.shade(1)",
+    "M.make_fact()(3)", "M.show(1)", "M.show('a')", "M.show(2.5)", "M.show(2)",
 ]
